@@ -2943,7 +2943,11 @@ def groupby_reduce(
         if (
             _is_arg_reduction(agg)
             and method == "blockwise"
-            and not all(nchunks == 1 for nchunks in array.numblocks[-nax:])
+            # (in-memory values grouped by a dask array take the chunks of the labels)
+            and not all(
+                nchunks == 1
+                for nchunks in (array if is_duck_dask_array(array) else by_).numblocks[-nax:]
+            )
         ):
             raise NotImplementedError(
                 "arg-reductions are not supported with method='blockwise', use 'cohorts' instead."
